@@ -15,7 +15,7 @@ from ..cfg import iter_stmts
 from .common import construct_of
 from .wave3 import _method, _enclosing_ifs
 from .sweep2 import discovery_polarity, _none_test
-from .sweep3 import discovery_bookkeeping, discovery_more, discovery_results, wraparound_test
+from .sweep3 import discovery_bookkeeping, discovery_more, discovery_results, wraparound_test, superseded_gates_refused, trailing_trace_test, prepare_opens_new_trace
 
 DS = "jaqalpaq.core.algorithm.walkers.DiscoverSubcircuits"
 
@@ -62,3 +62,6 @@ def run(ctx, rep):
     wraparound_test(ctx, rep, "C12.4")
     gate_outside_refused(ctx, rep, "C12.5")
     discovery_results(ctx, rep, "C12.6")
+    superseded_gates_refused(ctx, rep, "C12.7")
+    trailing_trace_test(ctx, rep, "C12.8")
+    prepare_opens_new_trace(ctx, rep, "C12.9")
